@@ -1334,8 +1334,9 @@ pub fn gen_big_gap(rng: &mut Rng) -> (Vec<u32>, Vec<u32>) {
 /// A lopsided pair with more than 16384 differences: many distinct items on
 /// one side, a few unrelated ones on the other.
 pub fn gen_lopsided(rng: &mut Rng) -> (Vec<u32>, Vec<u32>) {
-    let long = 16_500 + rng.usize(1500);
-    let short = 20 + rng.usize(40);
+    // (a third of them with more than 2^16 items on the long side)
+    let long = if rng.chance(1, 3) { 65_600 + rng.usize(6000) } else { 16_500 + rng.usize(1500) };
+    let short = if rng.chance(1, 3) { 1 + rng.usize(12) } else { 20 + rng.usize(40) };
     let a: Vec<u32> = (0..long as u32).map(|i| 10_000 + i).collect();
     let b: Vec<u32> = (0..short as u32).map(|i| 5_000_000 + i).collect();
     if rng.chance(1, 2) {
